@@ -1192,6 +1192,39 @@ func (in *Interp) fieldStoresIn(st *State, n ast.Node) []string {
 func (in *Interp) execRange(st *State, x *ast.RangeStmt) (*State, bool) {
 	in.pendingRead = nil
 	lv := in.eval(st, x.X)
+	// a short literal table of pointers (the fields of the receiver in wire order): run the body once per
+	// entry, as the unrolled statements would
+	if sv, ok := lv.(SliceV); ok && sv.Path == "" && sv.Base == "" && len(sv.Elems) > 0 && len(sv.Elems) <= 64 {
+		allPtr := true
+		for _, e := range sv.Elems {
+			if _, isPtr := e.(PtrV); !isPtr {
+				allPtr = false
+			}
+		}
+		if allPtr {
+			saveB, saveC := in.breaks, in.continues
+			in.breaks, in.continues = nil, nil
+			cur := st
+			for i, e := range sv.Elems {
+				if id, ok := x.Value.(*ast.Ident); ok && id.Name != "_" {
+					cur.vars[in.obj(id)] = e
+				}
+				if x.Key != nil {
+					if id, ok := x.Key.(*ast.Ident); ok && id.Name != "_" {
+						cur.vars[in.obj(id)] = IntV{Const(int64(i))}
+					}
+				}
+				var term bool
+				cur, term = in.execBlock(cur, x.Body.List)
+				if term || len(in.breaks) > 0 || len(in.continues) > 0 {
+					in.note(x.Pos(), "range over a pointer table left early: not summarised")
+					break
+				}
+			}
+			in.breaks, in.continues = saveB, saveC
+			return cur, false
+		}
+	}
 	listPath := ""
 	var listLen *Term
 	var elems []Val
